@@ -165,7 +165,7 @@ def run(tier, work):
             var, exp, got, si, raw = mm[0]
             key0 = classify(prog, si, var, exp, got) if d is not None else None
             if key0 and key0 in v.known:
-                v.count("known_finding_hits")
+                v.known_hit(key0)
                 continue
             lines, probes1 = render(prog, "")
             job = {"cfg": cfg, "files": {"t.rb": "\n".join(lines) + "\n"}, "args": ["t.rb"]}
